@@ -162,6 +162,13 @@ def gen_nth(tier, r):
                      (-1, MAXPRIME64), (-1, MAXPRIME64 + 1), (5, UMAX - 300), (12, UMAX - 300), (1000, UMAX - 20000),
                      (400, UMAX - 20000), (-1000, UMAX - 7), (40, 2**63 - 5), (-40, 2**63 + 5), (7, 2**32 - 3), (-7, 2**32 + 3)]:
         op("top", n, start)
+    # large prime starts: the Riemann-R estimate may land below start (n = 0, 1 must not move back)
+    for k in ([16, 18, 19] if q else [15, 16, 17, 18, 19]):
+        for _ in range(3 if q else 12):
+            x = r.randrange(10**k, min(10**(k + 1), UMAX - 10**6))
+            p0 = oracle.next_prime_ge(x)
+            for n, st in [(1, p0), (0, p0), (1, p0 - 1), (-1, p0 + 1), (2, p0), (0, p0 + 1)]:
+                op("big-prime-start", n, st)
     return ops
 
 NTH = register(Stream(
@@ -204,3 +211,90 @@ CFG = register(Stream(
           "ParallelSieve::setNumThreads for in- and out-of-range ints vs the model clamps; non-trivial = every case; "
           "distinct by the operation"),
     nontrivial=None))
+
+# --------------------------------------------------------------------------------------------
+# iterc: histories on one primesieve_iterator (C API); multi: interleaved C++ iterators
+# --------------------------------------------------------------------------------------------
+from . import stream_iter
+
+def _expand(ops, allow_skipto, r):
+    out = []
+    for o in ops:
+        t = o.split()
+        if t[0] in ("next", "prev"):
+            out += [t[0]] * int(t[1] if len(t) > 1 else 1)
+        elif t[0] in ("movein", "moveassign", "selfmove", "moveout"):
+            continue
+        elif t[0] == "jump" and allow_skipto and r.random() < 0.4:
+            out.append("skipto " + " ".join(t[1:]))
+        else:
+            out.append(o)
+    return out
+
+def gen_iterc(tier, r):
+    q = tier == "quick"
+    ops = []
+    scripts = stream_iter.gen_scripts("quick", r)
+    keep = [s for s in scripts if not s[0].startswith(("small-long", "big-", "mag-", "long"))]
+    r.shuffle(keep)
+    for label, sc in keep[: (60 if q else 400)]:
+        for o in _expand(sc, True, r):
+            ops.append((label, o))
+    # continued use after an error: next past the largest prime, then next/prev/jump/skipto/clear
+    for s in [MAXPRIME64 - 100, MAXPRIME64, UMAX - 10, UMAX]:
+        for tail in (["next", "next", "prev", "prev", "next"], ["next", "jump 100 200", "next", "prev"],
+                     ["next", "skipto 7 100", "next", "next"], ["next", "clear", "next", "prev", "prev"],
+                     ["prev", "next", "next", "next", "prev"]):
+            ops.append(("after-error", f"new {s} {UMAX}"))
+            for o in ["next"] * 4 + tail:
+                ops.append(("after-error", o))
+    # skipto is exclusive, jump_to inclusive, at primes and composites
+    for p in [2, 3, 5, 7, 719, 721, 997, 1000, 10**6 + 3, 2**32 - 5, 2**32 + 15]:
+        for kind in ["jump", "skipto"]:
+            ops += [("incl-excl", f"{kind} {p} {UMAX}"), ("incl-excl", "next"), ("incl-excl", f"{kind} {p} 0"), ("incl-excl", "prev"),
+                    ("incl-excl", "prev")]
+    return ops
+
+ITERC = register(Stream(
+    "iterc", gen_iterc,
+    rule=("cases = single primesieve_next_prime / prev_prime / jump_to / skipto / clear calls of seeded histories on one "
+          "primesieve_iterator incl. continued use after PRIMESIEVE_ERROR; every returned value, the complete iterator "
+          "state, is_error and 'errno was set to EDOM' are compared with the Lean model CIter; non-trivial = the call "
+          "left the buffer (refill, reposition or error); distinct by the full trace line"),
+    nontrivial=lambda o, obs: True))
+
+def gen_multi(tier, r):
+    q = tier == "quick"
+    ops = []
+    for rep in range(6 if q else 40):
+        n = r.choice([2, 2, 3, 5])
+        starts = [r.choice([0, r.randrange(0, 10**4), r.randrange(10**5, 10**7), 10**9 + r.randrange(0, 10**6), 10**12 + r.randrange(0, 10**6)]) for _ in range(n)]
+        for i, s0 in enumerate(starts):
+            ops.append(("interleave", f"{i} new {s0} {r.choice([UMAX, s0 + 3 * 10**7, s0 + 5000])}"))
+        for _ in range(300 if q else 1200):
+            i = r.randrange(n)
+            c = r.random()
+            if c < 0.6: ops.append(("interleave", f"{i} next"))
+            elif c < 0.93: ops.append(("interleave", f"{i} prev"))
+            elif c < 0.97:
+                t = r.randrange(0, 10**12)
+                ops.append(("interleave", f"{i} jump {t} {r.choice([UMAX, t + 1000])}"))
+            else: ops.append(("interleave", f"{i} clear"))
+    # one iterator sieving many segments of one generator while another one refills in between
+    ops.append(("segments-vs-refill", f"0 new 0 {3 * 10**7}"))
+    ops.append(("segments-vs-refill", f"1 new {10**12} {UMAX}"))
+    for j in range(400 if q else 2500):
+        for _ in range(300):
+            ops.append(("segments-vs-refill", "0 next"))
+        t = 10**12 + 1000 * j
+        ops.append(("segments-vs-refill", f"1 jump {t} {t + 100}"))
+        ops.append(("segments-vs-refill", "1 next"))
+    return ops
+
+MULTI = register(Stream(
+    "multi", gen_multi,
+    rule=("cases = single next/prev/jump/clear calls interleaved over 2..5 primesieve::iterator objects in one thread "
+          "(including one iterator sieving many segments of one generator while another iterator re-creates its "
+          "generator between every 40 calls); each call's value and state are compared with the Lean model run "
+          "on per-object states (frame property); distinct by the full trace line"),
+    nontrivial=lambda o, obs: True))
